@@ -50,7 +50,7 @@ pub fn decode_history(kind: Kind, c: &mut Cur, max_ops: usize) -> RawHistory {
             (49..=50, _) => RawOp::System { lo: a & 15, d1: b & 127, d2: d & 127, carrier },
             (51, _) => RawOp::Reset,
             (52..=58, Kind::Polling) => RawOp::Poll { sel: a },
-            (59..=63, Kind::Polling) => RawOp::Advance { which: a & 7, free: (b as u64) << 8 | d as u64 },
+            (59..=63, Kind::Polling) => RawOp::Advance { which: a % 11, free: (b as u64) << 8 | d as u64 },
             _ => RawOp::Contrib { sel: a, which: b, v: d & 127, carrier, link: d.rotate_left(3) ^ a },
         };
         raw.push(op);
@@ -83,7 +83,7 @@ pub fn fuzz_nrpn(data: &[u8]) -> Result<(), FuzzFail> {
 pub fn fuzz_polling(data: &[u8]) -> Result<(), FuzzFail> {
     use crate::p_polling::*;
     let mut c = Cur::new(data);
-    let t = TIMEOUTS[(c.u8() % 5) as usize];
+    let t = TIMEOUTS[(c.u8() % 7) as usize];
     let h = decode_history(Kind::Polling, &mut c, 600);
     let ops = concretize(Kind::Polling, &h, t);
     for prop in ["C14", "C13"] {
